@@ -278,6 +278,8 @@ def run_one(seed: int, index: int, tier: str) -> dict:
         k = 0
         for n, d in nodes[1:]:
             for kind in ("missing", "syntax_token", "syntax_torn", "resolve"):
+                if len(res["violations"]) >= 4 or any(x["class"] == "hang" for x in res["violations"]):
+                    break          # a broken tree must not spend the batch's budget on 20 s watchdog expiries
                 k += 1
                 ffiles, detail = make_fault(rf, n, kind, files)
                 sub = base / "tree" if inplace else base / f"t{k}"
